@@ -581,3 +581,420 @@ mod test {
     }
 }
 
+
+
+//============ Kani harnesses (verification only) ============================
+//
+// Compiled only by `cargo kani` (which sets `cfg(kani)`); add-only.
+//
+// C27 (corrupt input never crashes, allocation stays within budget) and
+// C28 (what is written reads back) for the codecs of this module. The
+// harnesses also discharge the per-type codec contracts A1-A9 that the
+// Verus units of the store assume (units/store_header/ASSUMED_CODECS.md).
+
+#[cfg(kani)]
+pub(crate) mod kani_verif {
+    use super::*;
+
+    //------------ GuardedRead -----------------------------------------------
+
+    /// The allocation slack granted to a decoder: a buffer handed to the
+    /// reader may exceed the bytes left in the input by at most this much.
+    pub const SLACK: usize = 65536;
+
+    /// A reader over a byte string standing for the content of a local
+    /// file.
+    ///
+    /// It carries the *allocation budget* obligation of C27: whenever a
+    /// decoder presents a buffer to be filled (which it has allocated
+    /// before), that buffer must not be larger than what is left of the
+    /// input plus [`SLACK`]. A decoder that sizes a buffer from a length
+    /// field of the (corrupt) input without looking at the input violates
+    /// this.
+    pub struct GuardedRead<'a> {
+        data: &'a [u8],
+        pos: usize,
+    }
+
+    impl<'a> GuardedRead<'a> {
+        pub fn new(data: &'a [u8]) -> Self {
+            GuardedRead { data, pos: 0 }
+        }
+
+        /// The number of bytes consumed so far.
+        pub fn consumed(&self) -> usize {
+            self.pos
+        }
+
+        /// The number of bytes left.
+        pub fn remaining(&self) -> usize {
+            self.data.len() - self.pos
+        }
+    }
+
+    impl io::Read for GuardedRead<'_> {
+        fn read(&mut self, buf: &mut [u8]) -> Result<usize, io::Error> {
+            let left = self.data.len() - self.pos;
+            // C27 allocation budget.
+            assert!(
+                buf.len() <= left + SLACK,
+                "C27 allocation budget: buffer exceeds remaining input \
+                 by more than 64 KiB"
+            );
+            let n = cmp::min(buf.len(), left);
+            buf[..n].copy_from_slice(&self.data[self.pos..self.pos + n]);
+            self.pos += n;
+            Ok(n)
+        }
+    }
+
+    //------------ ArrayWrite ------------------------------------------------
+
+    /// A writer into a fixed array that fails once `fail_at` bytes have
+    /// been written (a full disk, a crash) and accepts partial writes up
+    /// to that point.
+    pub struct ArrayWrite<const N: usize> {
+        pub buf: [u8; N],
+        pub len: usize,
+        pub fail_at: usize,
+    }
+
+    impl<const N: usize> ArrayWrite<N> {
+        /// A writer that never fails (within `N` bytes).
+        pub fn new() -> Self {
+            ArrayWrite { buf: [0u8; N], len: 0, fail_at: N }
+        }
+
+        /// A writer that fails after `fail_at` bytes.
+        pub fn failing(fail_at: usize) -> Self {
+            ArrayWrite { buf: [0u8; N], len: 0, fail_at }
+        }
+
+        pub fn written(&self) -> &[u8] {
+            &self.buf[..self.len]
+        }
+    }
+
+    impl<const N: usize> io::Write for ArrayWrite<N> {
+        fn write(&mut self, data: &[u8]) -> Result<usize, io::Error> {
+            let room = cmp::min(self.fail_at, N) - self.len;
+            if room == 0 && !data.is_empty() {
+                return Err(io::Error::from(io::ErrorKind::StorageFull))
+            }
+            let n = cmp::min(room, data.len());
+            self.buf[self.len..self.len + n].copy_from_slice(&data[..n]);
+            self.len += n;
+            Ok(n)
+        }
+
+        fn flush(&mut self) -> Result<(), io::Error> {
+            Ok(())
+        }
+    }
+
+    //------------ Stand-ins -------------------------------------------------
+
+    /// Stand-in for `<Bytes as Drop>::drop`: the buffer is leaked instead of
+    /// being released. CBMC needs minutes for the tagged-pointer and
+    /// vtable dance of the `bytes` crate's deallocation, which is not part
+    /// of any claim here.
+    pub fn bytes_no_drop(_bytes: &mut Bytes) { }
+
+    /// Stand-in for `alloc::fmt::format` on error paths (the rendered text
+    /// of an error message is not part of any claim).
+    pub fn no_format(_args: fmt::Arguments<'_>) -> String {
+        String::new()
+    }
+
+    //------------ Helpers ---------------------------------------------------
+
+    /// Whether `a` and `b` agree at one arbitrary position below `len`
+    /// (asserting this for the arbitrary position proves it for all).
+    pub fn same_at_any_index(a: &[u8], b: &[u8], len: usize) -> bool {
+        if len == 0 {
+            return true
+        }
+        let i: usize = kani::any();
+        kani::assume(i < len);
+        a[i] == b[i]
+    }
+
+    /// An arbitrary prefix of an arbitrary array: all inputs as far as a
+    /// decoder that reads at most `N - 1` bytes can tell.
+    pub fn any_input<const N: usize>(buf: &mut [u8; N]) -> &[u8] {
+        *buf = kani::any();
+        let len: usize = kani::any();
+        kani::assume(len <= N);
+        &buf[..len]
+    }
+
+    /// The first four bytes as a big-endian integer.
+    pub fn first_u32(data: &[u8]) -> u32 {
+        u32::from_be_bytes([data[0], data[1], data[2], data[3]])
+    }
+
+    /// The first eight bytes as a big-endian integer.
+    pub fn first_u64(data: &[u8]) -> u64 {
+        u64::from_be_bytes([
+            data[0], data[1], data[2], data[3],
+            data[4], data[5], data[6], data[7],
+        ])
+    }
+
+    /// The decoder side of a value type whose encoding of the value found
+    /// at the start of `data` is `size` bytes long.
+    ///
+    /// Obligations (C27; A3, A4 of ASSUMED_CODECS): no panic; the
+    /// allocation budget; `Ok(v)` only if `size` bytes are there, then
+    /// exactly `size` bytes are consumed and they are the encoding of `v`
+    /// (re-composing `v` yields them); an error is never fatal, is an
+    /// end-of-file error exactly if the input is shorter than `size` (so
+    /// a proper prefix of an encoding is never `Ok` and never fatal), and
+    /// otherwise only occurs if the type can reject values (`may_reject`).
+    pub fn decode_checked<T, const N: usize>(
+        data: &[u8], size: usize, may_reject: bool,
+    ) -> Option<T>
+    where T: for<'a> Parse<GuardedRead<'a>> + Compose<ArrayWrite<N>> {
+        let mut reader = GuardedRead::new(data);
+        match T::parse(&mut reader) {
+            Ok(res) => {
+                assert!(data.len() >= size);
+                assert!(reader.consumed() == size);
+                let mut again = ArrayWrite::<N>::new();
+                assert!(res.compose(&mut again).is_ok());
+                assert!(again.len == size);
+                assert!(same_at_any_index(&again.buf, data, size));
+                Some(res)
+            }
+            Err(err) => {
+                assert!(!err.is_fatal());
+                assert!(err.is_eof() == (data.len() < size));
+                assert!(err.is_eof() || may_reject);
+                None
+            }
+        }
+    }
+
+    /// The encoder side of a value whose encoding is `size` bytes long.
+    ///
+    /// Obligations (C28; A1, A2, A5, A6 of ASSUMED_CODECS): composing into
+    /// a writer that fails after `k` bytes returns `Ok` iff `k >= size`
+    /// and leaves exactly the first `min(k, size)` bytes of the encoding
+    /// written; the complete encoding followed by arbitrary further bytes
+    /// decodes successfully, consuming exactly the encoding. Returns the
+    /// decoded value for comparison with the original.
+    pub fn encode_checked<T, const N: usize>(value: &T, size: usize) -> T
+    where T: for<'a> Parse<GuardedRead<'a>> + Compose<ArrayWrite<N>> {
+        assert!(size < N);
+        let mut full = ArrayWrite::<N>::new();
+        assert!(value.compose(&mut full).is_ok());
+        assert!(full.len == size);
+
+        let fail_at: usize = kani::any();
+        kani::assume(fail_at <= N);
+        let mut part = ArrayWrite::<N>::failing(fail_at);
+        let res = value.compose(&mut part);
+        assert!(res.is_ok() == (fail_at >= size));
+        assert!(part.len == cmp::min(fail_at, size));
+        assert!(same_at_any_index(&part.buf, &full.buf, part.len));
+        kani::cover!(fail_at + 1 == size);
+        kani::cover!(fail_at == 0 && size > 0);
+
+        // Arbitrary bytes behind the encoding.
+        let rest: u8 = kani::any();
+        full.buf[size] = rest;
+        let mut reader = GuardedRead::new(&full.buf[..size + 1]);
+        let decoded = T::parse(&mut reader);
+        assert!(decoded.is_ok());
+        assert!(reader.consumed() == size);
+        decoded.ok().unwrap()
+    }
+
+    //------------ Fixed-size types: decoding any input ----------------------
+    //
+    // Complete: a decoder that reads at most `size` bytes cannot tell an
+    // arbitrary prefix of `size + 1` arbitrary bytes from an arbitrary
+    // input. `#[kani::unwind]` only bounds the retry loops of `read_exact`
+    // and `write_all`; the unwinding assertions prove the bound suffices.
+
+    #[kani::proof]
+    #[kani::unwind(3)]
+    fn decode_u8_any_input() {
+        let mut buf = [0u8; 2];
+        let data = any_input(&mut buf);
+        let res = decode_checked::<u8, 2>(data, 1, false);
+        if let Some(res) = res {
+            assert!(res == data[0]);  // A8
+        }
+        kani::cover!(res.is_some());
+        kani::cover!(res.is_none());
+    }
+
+    #[kani::proof]
+    #[kani::unwind(3)]
+    fn decode_u32_any_input() {
+        let mut buf = [0u8; 5];
+        let data = any_input(&mut buf);
+        let res = decode_checked::<u32, 5>(data, 4, false);
+        if let Some(res) = res {
+            assert!(res == first_u32(data));
+        }
+        kani::cover!(res.is_some() && data.len() == 5);
+        kani::cover!(res.is_none() && data.len() == 3);
+    }
+
+    #[kani::proof]
+    #[kani::unwind(3)]
+    fn decode_u64_any_input() {
+        let mut buf = [0u8; 9];
+        let data = any_input(&mut buf);
+        let res = decode_checked::<u64, 9>(data, 8, false);
+        if let Some(res) = res {
+            assert!(res == first_u64(data));
+        }
+        kani::cover!(res.is_some() && data.len() == 9);
+        kani::cover!(res.is_none() && data.len() == 7);
+    }
+
+    #[kani::proof]
+    #[kani::unwind(3)]
+    fn decode_i64_any_input() {
+        let mut buf = [0u8; 9];
+        let data = any_input(&mut buf);
+        let res = decode_checked::<i64, 9>(data, 8, false);
+        if let Some(res) = res {
+            assert!(res == first_u64(data) as i64);
+        }
+        kani::cover!(res == Some(-1));
+        kani::cover!(res.is_none() && data.len() == 7);
+    }
+
+    #[kani::proof]
+    #[kani::unwind(3)]
+    fn decode_opt_i64_any_input() {
+        let mut buf = [0u8; 10];
+        let data = any_input(&mut buf);
+        // Marker 0: nothing follows; marker 1: a value follows; any other
+        // marker is rejected right away.
+        let size = if data.first() == Some(&1) { 9 } else { 1 };
+        let res = decode_checked::<Option<i64>, 10>(data, size, true);
+        if data.len() >= size {
+            // Rejected exactly for a marker other than 0 and 1.
+            assert!(res.is_some() == (data[0] <= 1));
+        }
+        match res {
+            Some(None) => assert!(data[0] == 0),
+            Some(Some(v)) => {
+                assert!(data[0] == 1);
+                assert!(v == first_u64(&data[1..]) as i64);
+            }
+            None => { }
+        }
+        kani::cover!(res == Some(None));
+        kani::cover!(matches!(res, Some(Some(_))));
+        kani::cover!(res.is_none() && data.len() == 10 && data[0] == 2);
+        kani::cover!(res.is_none() && data.len() == 8 && data[0] == 1);
+    }
+
+    #[kani::proof]
+    #[kani::unwind(3)]
+    fn decode_uuid_any_input() {
+        let mut buf = [0u8; 17];
+        let data = any_input(&mut buf);
+        let res = decode_checked::<Uuid, 17>(data, 16, false);
+        kani::cover!(res.is_some());
+        kani::cover!(res.is_none() && data.len() == 15);
+    }
+
+    #[kani::proof]
+    #[kani::unwind(3)]
+    fn decode_hash_any_input() {
+        let mut buf = [0u8; 33];
+        let data = any_input(&mut buf);
+        let res = decode_checked::<rrdp::Hash, 33>(data, 32, false);
+        kani::cover!(res.is_some());
+        kani::cover!(res.is_none() && data.len() == 31);
+    }
+
+    #[kani::proof]
+    #[kani::unwind(3)]
+    fn decode_serial_any_input() {
+        let mut buf = [0u8; 21];
+        let data = any_input(&mut buf);
+        let res = decode_checked::<Serial, 21>(data, 20, true);
+        if data.len() >= 20 {
+            // Rejected exactly if the number would be negative.
+            assert!(res.is_some() == (data[0] & 0x80 == 0));
+        }
+        kani::cover!(res.is_some());
+        kani::cover!(res.is_none() && data.len() == 21);
+        kani::cover!(res.is_none() && data.len() == 19);
+    }
+
+    //------------ Fixed-size types: encoding any value ----------------------
+
+    #[kani::proof]
+    #[kani::unwind(3)]
+    fn encode_u8_any_value() {
+        let value: u8 = kani::any();
+        assert!(encode_checked::<u8, 2>(&value, 1) == value);
+    }
+
+    #[kani::proof]
+    #[kani::unwind(3)]
+    fn encode_u32_any_value() {
+        let value: u32 = kani::any();
+        assert!(encode_checked::<u32, 5>(&value, 4) == value);
+    }
+
+    #[kani::proof]
+    #[kani::unwind(3)]
+    fn encode_u64_any_value() {
+        let value: u64 = kani::any();
+        assert!(encode_checked::<u64, 9>(&value, 8) == value);
+    }
+
+    #[kani::proof]
+    #[kani::unwind(3)]
+    fn encode_i64_any_value() {
+        let value: i64 = kani::any();
+        assert!(encode_checked::<i64, 9>(&value, 8) == value);
+    }
+
+    #[kani::proof]
+    #[kani::unwind(3)]
+    fn encode_opt_i64_any_value() {
+        let value: Option<i64> = kani::any();
+        let size = if value.is_some() { 9 } else { 1 };
+        assert!(encode_checked::<Option<i64>, 10>(&value, size) == value);
+        kani::cover!(value.is_none());
+        kani::cover!(value == Some(i64::MIN));
+    }
+
+    #[kani::proof]
+    #[kani::unwind(3)]
+    fn encode_uuid_any_value() {
+        let value = Uuid::from_bytes(kani::any());
+        let res = encode_checked::<Uuid, 17>(&value, 16);
+        assert!(same_at_any_index(res.as_bytes(), value.as_bytes(), 16));
+    }
+
+    #[kani::proof]
+    #[kani::unwind(3)]
+    fn encode_hash_any_value() {
+        let value = rrdp::Hash::from(kani::any::<[u8; 32]>());
+        let res = encode_checked::<rrdp::Hash, 33>(&value, 32);
+        assert!(same_at_any_index(res.as_slice(), value.as_slice(), 32));
+    }
+
+    #[kani::proof]
+    #[kani::unwind(3)]
+    fn encode_serial_any_value() {
+        let array: [u8; 20] = kani::any();
+        let value = Serial::from_array(array);
+        kani::assume(value.is_ok());
+        let value = value.unwrap();
+        let res = encode_checked::<Serial, 21>(&value, 20);
+        assert!(same_at_any_index(&res.into_array(), &array, 20));
+    }
+}
